@@ -728,12 +728,14 @@ class IPPO(MultiAgentRLAlgorithm):
                     _, _, entropy = actor(batch_states)
                     value = critic(batch_states).squeeze(-1)
 
-                    log_prob = actor.action_log_prob(batch_actions)
-
-                    if isinstance(action_space, spaces.Box) and action_space.shape == (
-                        1,
+                    # One-dimensional Box / MultiDiscrete / MultiBinary actions have lost
+                    # their action dimension in the squeeze above
+                    if batch_actions.dim() == 1 and not isinstance(
+                        action_space, spaces.Discrete
                     ):
                         batch_actions = batch_actions.unsqueeze(1)
+
+                    log_prob = actor.action_log_prob(batch_actions)
 
                     logratio = log_prob - batch_log_probs
                     ratio = logratio.exp()
